@@ -74,7 +74,8 @@ CHECKS = {
         text="calcQuota of wigm (integer_quota / exact / guarded / fixed cases), scotland, mpls, wigm-prf, cfer against the "
              "prescribed formula for every ballots/seats; hasQuota comparator direction of all six rules (strict iff exact); at "
              "every single-exclusion site of wigm, wigm-prf and scotland the excluded candidate does not hold a quota (site "
-             "obligation using the election loop's postcondition).",
+             "obligation using the election loop's postcondition); the epsilon the fixed-point quotas add is one unit in the last "
+             "working place (postcondition of Fixed.initialize, from any prior class state).",
         design_ref='DESIGN 6/C04, 11.8',
         note=COMMON_NOTE + "Meek-family quota recomputation and QPQ quota, and the not-excluded clause for cfer/mpls: bounded only.",
         technique='contract-based deductive verification (closure postconditions; site obligations inside count()), z3'),
